@@ -892,6 +892,71 @@ def multi_part(quick):
     return cnt, bad
 
 
+def nested_part():
+    """
+    Controllers that run a simulation themselves.
+
+    A controller is a program; one that calls run_ode (a cached reference
+    trajectory on its first call, or a short look-ahead on every call) is
+    legal. The outer simulation must be the one obtained with a controller
+    that returns the same outputs without simulating.
+    """
+    from moptipyapps.dynamic_control.ode import run_ode
+
+    def eqs(state, _t, control, out):
+        out[0] = -state[0] + control[0]
+        out[1] = -0.5 * state[1] + control[0]
+
+    def inner_eqs(state, _t, control, out):
+        out[0] = -2.0 * state[0] + control[0]
+        out[1] = state[0] - state[1]
+
+    def inner_ctrl(state, _t, params, out):
+        out[0] = 0.25 * state[1]
+
+    def plain(state, _t, params, out):
+        out[0] = params[0] * state[0]
+
+    cnt = 0
+    bad = []
+    for mode in ("first call", "every call"):
+        for steps, tmax in ((3, 0.5), (7, 2.0), (40, 5.0)):
+            for start in ([1.0, -2.0], [0.5, 0.25]):
+                seen = []
+
+                def nested(state, t, params, out, mode=mode, seen=seen):
+                    if mode == "every call" or not seen:
+                        seen.append(run_ode(
+                            np.array([0.3, -0.1]), inner_eqs, inner_ctrl,
+                            np.zeros(1), 1, 5, 0.25))
+                    out[0] = params[0] * state[0]
+                p = np.array([-1.0])
+                exp = run_ode(np.array(start), eqs, plain, p, 1, steps, tmax)
+                inner = run_ode(np.array([0.3, -0.1]), inner_eqs, inner_ctrl,
+                                np.zeros(1), 1, 5, 0.25)
+                try:
+                    got = run_ode(np.array(start), eqs, nested, p, 1, steps,
+                                  tmax)
+                    why = None if np.array_equal(got, exp) else (
+                        f"result {np.asarray(got).tolist()} expected "
+                        f"{np.asarray(exp).tolist()}")
+                    if why is None and not all(
+                            np.array_equal(x, inner) for x in seen):
+                        why = "the inner simulations differ from each other"
+                except Exception as e:  # noqa
+                    why = f"raises {type(e).__name__}: {e}"
+                cnt += 1
+                if why and not bad:
+                    bad.append((
+                        "run_ode|a controller that simulates itself changes "
+                        "the outer simulation",
+                        f"controller that calls run_ode on the {mode} "
+                        f"(inner: 5 steps, T=0.25), outer start={start} "
+                        f"steps={steps} max_time={tmax}: {why[:600]}",
+                        {"multi": True, "nested": mode}))
+    return cnt, bad
+
+
 def run(ctx: Ctx) -> None:
     quick = ctx.quick
     for name in SYS_DIMS:
@@ -969,6 +1034,12 @@ def run(ctx: Ctx) -> None:
     ctx.add("traces_validated_against_impl", mc)
     ctx.part("multi_run_ode", configurations=mc)
     ctx.log(f"multi_run_ode: {mc} configurations")
+    nc, nbad = nested_part()
+    for sig, text, rep in nbad:
+        ctx.violation(sig, text, rep)
+    ctx.add("evaluations", nc)
+    ctx.add("traces_validated_against_impl", nc)
+    ctx.part("controllers_that_simulate", configurations=nc)
 
     nontrivial = {p for p in list(tot["paths"]) + list(ft["paths"])
                   if len(p) > 2 or not p[-1].startswith("exit:return")}
@@ -1001,8 +1072,9 @@ def run(ctx: Ctx) -> None:
 def replay(ctx: Ctx, rep: dict) -> bool:
     if rep.get("multi"):
         c, bad = multi_part(True)
-        print(bad)
-        return not bad
+        c2, bad2 = nested_part()
+        print(bad + bad2)
+        return not (bad or bad2)
     p = rep["program"]
     r = execute(p, p.get("horizon"))
     print(describe(p))
